@@ -575,19 +575,31 @@ func assembledChecks(w *World) {
 			continue
 		}
 		done++
-		m := hotstuff.NewQuorumCert(rs, qc.View(), qc.BlockHash())
-		c, p, _ := au.each(func(x *cert.Authority) error {
-			if err := x.VerifyQuorumCert(qc); err != nil {
-				return nil // the genuine certificate does not verify here (e.g. a Byzantine leader's block): nothing to compare
+		for _, alt := range []struct {
+			name string
+			sig  hotstuff.QuorumSignature
+		}{{"resplit", rs}, {"retype", retypeSig(qc.Signature())}} {
+			if alt.sig == nil || w.viol != nil {
+				continue
 			}
-			if x.VerifyQuorumCert(m) == nil {
-				return nil
+			m := hotstuff.NewQuorumCert(alt.sig, qc.View(), qc.BlockHash())
+			c, p, _ := au.each(func(x *cert.Authority) error {
+				if err := x.VerifyQuorumCert(qc); err != nil {
+					return nil // the genuine certificate does not verify here (e.g. a Byzantine leader's block): nothing to compare
+				}
+				if x.VerifyQuorumCert(m) == nil {
+					return nil
+				}
+				return fmt.Errorf("rejected")
+			})
+			w.probe(alt.name + "-certificate-checked")
+			if c != p {
+				what := "whose signature bytes are divided differently among the same signers"
+				if alt.name == "retype" {
+					what = "whose signatures are presented as those of another scheme (same signers, same bytes)"
+				}
+				w.violate("C11", "C11/"+alt.name+"/accept-vs-reject", nil, "a certificate for %s %s: cached:%v uncached:%v right after the genuine certificate was verified", w.reg.sym(qc.BlockHash()), what, verdictB(c), verdictB(p))
 			}
-			return fmt.Errorf("rejected")
-		})
-		w.probe("resplit-certificate-checked")
-		if c != p {
-			w.violate("C11", "C11/resplit/accept-vs-reject", nil, "a certificate for %s whose signature bytes are divided differently among the same signers: cached:%v uncached:%v right after the genuine certificate was verified", w.reg.sym(qc.BlockHash()), verdictB(c), verdictB(p))
 		}
 	}
 	// timeout certificates: signatures over two different views
